@@ -287,6 +287,38 @@ func T9(rc *RC) {
 	} else {
 		rc.S.Ok("T9", fi.Key, pos, fmt.Sprintf("%d paths, one kernel each", len(paths)))
 	}
+	// the engine method in front of the dispatcher: every successful return has gone through it
+	// (a "nothing to move" shortcut keyed on the strides returns while Dense.Transpose installs
+	// the new strides over data that stayed where it was)
+	if fe := anchor(rc, "T9", "tensor.(StdEng).Transpose"); fe != nil {
+		pos := rc.P.Pos(fe.Decl.Pos())
+		_, tree := sCanon(rc, fe)
+		paths, ok := ir.EnumPaths(tree, 2000)
+		if !ok {
+			rc.S.Undec("T9", fe.Key, pos, "too many paths")
+			return
+		}
+		var bad []string
+		succ := 0
+		for _, p := range paths {
+			if p.Exit != "return" || strings.Contains(p.Ret, "errors.") || strings.Contains(p.Ret, "err") {
+				continue
+			}
+			succ++
+			n := 0
+			for _, st := range p.Steps {
+				n += strings.Count(st.Head, ".denseTranspose(")
+			}
+			if n != 1 {
+				bad = append(bad, fmt.Sprintf("the successful path [%s] calls the dispatcher %d times", strings.Join(p.Guards, " && "), n))
+			}
+		}
+		if len(bad) > 0 {
+			rc.S.Viol("T9", fe.Key, pos, strings.Join(uniq(bad), "; ")).Sig = fmt.Sprintf("%d successful path(s) without the dispatcher", len(uniq(bad)))
+		} else {
+			rc.S.Ok("T9", fe.Key, pos, fmt.Sprintf("%d successful paths, each through denseTranspose", succ))
+		}
+	}
 }
 
 // T10: materialisation ends the lazy state on every successful exit. Once Dense.Transpose has
